@@ -580,12 +580,13 @@ def run_config(P, mode, n, workers, aliases, preempt, window=None):
 PLAN = {
     # tier -> [(config, preemptions without failure, preemptions with a failing tensor)]
     "quick": [("par2w2", 2, 1), ("par3w2", 1, 1), ("par3w2-shared", 1, 1), ("shards2x2w4", 1, 0), ("shards3w3", 1, 0), ("shards2x2w6", 2, None, ["fit", 0], True),
-              ("shards21w6-shared", 1, None)],
+              ("shards21w6-shared", 1, None, [2, 3])],    # quick: the two size classes with an oversized second tensor (the other two take > 4 min each; thorough has all)
     # thorough: small configurations with full preemption semantics; larger ones delay-bounded (deviations from a
     # round-robin default order, also at blocking points) with the position of the deviations sharded into windows
     "thorough": [("par2w2", 3, 2), ("par3w2", 2, 1), ("par3w2-shared", 2, 1), ("par3w3", 1, 1), ("shards2x2w4", 1, 1), ("shards3w3", 1, 1),
                  ("par3w3", 3, 2, None, True), ("par4w2", 2, 2, None, True), ("par4w3-shared", 2, 2, None, True),
-                 ("shards2x2w4", 3, 2, None, True), ("shards2x2w6", 3, 2, ["fit", 0, 5], True), ("shards3w3", 3, 2, None, True)],
+                 ("shards2x2w4", 3, 2, None, True), ("shards2x2w6", 3, 2, ["fit", 0, 5], True), ("shards3w3", 3, 2, None, True),
+                 ("shards21w6-shared", 1, None)],
 }
 
 
